@@ -75,9 +75,9 @@ pub fn hss_expand_aux_data<'a, H: HashChain>(
 
     let mut expanded_aux_data: MutableExpandedAuxData = Default::default();
 
-    let mut aux_data = aux_data.unwrap();
+    let mut aux_data = aux_data?;
 
-    if aux_data[AUX_DATA_MARKER] == NO_AUX_DATA {
+    if !hss_is_aux_data_used(aux_data) || aux_data.len() < 4 {
         return None;
     }
 
@@ -99,9 +99,15 @@ pub fn hss_expand_aux_data<'a, H: HashChain>(
         layer_sizes[index] = (H::OUTPUT_SIZE as usize) << index;
     }
 
+    // The level word decides how long the buffer must be; a truncated buffer or a corrupted level
+    // word is treated like any other invalid aux data
+    let len_aux_data = index + layer_sizes.iter().sum::<usize>();
+    if aux_data.len() < len_aux_data + H::OUTPUT_SIZE as usize {
+        return None;
+    }
+
     // Check if data is valid
     if let Some(seed) = seed {
-        let len_aux_data = index + layer_sizes.iter().sum::<usize>();
         let (aux_data, aux_data_mac) = aux_data.split_at(len_aux_data);
 
         let key = compute_seed_derive::<H>(seed);
@@ -150,7 +156,9 @@ pub fn hss_store_aux_marker(aux_data: &mut [u8], aux_level: AuxLevel) {
 }
 
 pub fn hss_is_aux_data_used(aux_data: &[u8]) -> bool {
-    aux_data[AUX_DATA_MARKER] != NO_AUX_DATA
+    aux_data
+        .get(AUX_DATA_MARKER)
+        .map_or(false, |marker| *marker != NO_AUX_DATA)
 }
 
 pub fn hss_save_aux_data<H: HashChain>(
